@@ -42,7 +42,7 @@ func isGrowthLike(n string) bool {
 
 func (r *runner) heap() {
 	th := r.c.Thorough()
-	inuse := [][2]int64{{0, 0}, {1, 16}, {2, 200}, {1, 524288}, {5, 2621443}, {3, 100000000}}
+	inuse := [][2]int64{{0, 0}, {2, 0}, {1, 16}, {2, 200}, {1, 524288}, {5, 2621443}, {3, 100000000}}
 	allocs := [][2]int64{{0, 0}, {5, 1000}, {7, 3670016}}
 	if th {
 		inuse = append(inuse, [2]int64{1, 1}, [2]int64{5, 1000}, [2]int64{2, 1048577})
